@@ -177,8 +177,9 @@ def write_evidence(pid, tier, seed, mod, cx, wall, violations, known_matched, er
         "wall_s": round(wall, 2),
         "violations": violations,
     }
-    os.makedirs(os.path.join(VERIF, "evidence"), exist_ok=True)
-    path = os.path.join(VERIF, "evidence", pid + ".json")
+    evdir = os.environ.get("VERIF_EVIDENCE_DIR") or os.path.join(VERIF, "evidence")
+    os.makedirs(evdir, exist_ok=True)
+    path = os.path.join(evdir, pid + ".json")
     with open(path + ".tmp", "w") as fh:
         json.dump(ev, fh, indent=1)
     os.replace(path + ".tmp", path)
@@ -254,8 +255,9 @@ def run_property(pid, tier, explain=None, facts_dir=None, quiet=False):
             print("NOTE: listed known finding no longer reproduces: %s" % k)
     rc = 0
     if unlisted:
-        os.makedirs(os.path.join(VERIF, "reports"), exist_ok=True)
-        rp = os.path.join(VERIF, "reports", "%s.violation.json" % pid)
+        rdir = os.environ.get("VERIF_EVIDENCE_DIR") or os.path.join(VERIF, "reports")
+        os.makedirs(rdir, exist_ok=True)
+        rp = os.path.join(rdir, "%s.violation.json" % pid)
         with open(rp, "w") as fh:
             json.dump({"property": pid, "tree_hash": cx.tree_hash,
                        "violations": [dict(o.to_json(), key=o.full_key()) for o in unlisted]}, fh, indent=1)
